@@ -420,7 +420,7 @@ func discoveryProp(c *pbt.C) {
 			// the sender itself signs a malformed body: passes hash and signature
 			body, md := mutateRLP(c, label+".rlp", d.body)
 			pkt = sealPacket(sender, d.ptype, body)
-			d.wellFormed = bytes.Equal(body, d.body)
+			d.wellFormed = d.wellFormed && bytes.Equal(body, d.body)
 			mdescr = "body " + md + ", signed by the sender"
 		case "random-bytes":
 			pkt = c.Bytes(label+".raw", 0, 200)
@@ -439,11 +439,16 @@ func discoveryProp(c *pbt.C) {
 			mut, strictReject = "too-long-for-a-datagram", true
 			mdescr = fmt.Sprintf("%d bytes, cut at %d on arrival", len(pkt), dgramMax)
 		}
-		c.Class("mutation-" + mut)
 		arriving := pkt
 		if len(arriving) > dgramMax {
 			arriving = arriving[:dgramMax]
 		}
+		if mut != "none" && bytes.Equal(arriving, orig) {
+			// the change fell victim to the datagram cut (or undid itself): what arrives is the valid packet
+			mut, strictReject, notFromSender = "none", false, false
+			mdescr = "mutation without effect on what arrives"
+		}
+		c.Class("mutation-" + mut)
 		pt, req, fromID, hash, err := e.decode(arriving, d.descr+" / "+mdescr)
 		c.Note("%s / %s (%d bytes) -> decode: type=%d from-sender=%v err=%v", d.descr, mdescr, len(pkt), pt, fromID == senderID, err)
 		passesIntegrity := len(arriving) >= 98 && bytes.Equal(arriving[:32], crypto.Keccak256(arriving[32:]))
